@@ -1,5 +1,5 @@
 /* C19: ares_round_up_pow2() of the library under test on the inputs given on stdin (one
- * unsigned decimal per line); prints "<n> <result>" per line.  Used by lib/pow2check.py. */
+ * unsigned decimal per line); prints "<n> <ares_round_up_pow2(n)> <ares_log2 of that>" per line.  Used by lib/pow2check.py. */
 #include "ares_private.h"
 #include <stdio.h>
 #include <stdlib.h>
@@ -10,7 +10,7 @@ int main(void)
   while (fgets(line, sizeof(line), stdin) != NULL) {
     unsigned long long n = strtoull(line, NULL, 10);
     size_t             r = ares_round_up_pow2((size_t)n);
-    printf("%llu %llu\n", n, (unsigned long long)r);
+    printf("%llu %llu %llu\n", n, (unsigned long long)r, (unsigned long long)ares_log2(r));
   }
   return 0;
 }
